@@ -166,6 +166,10 @@ class VExt(V):
 _n = [0]
 
 
+def reset_fresh():
+    _n[0] = 0
+
+
 def fresh(name, sort):
     _n[0] += 1
     return z3.Const('%s!%d' % (name, _n[0]), sort)
